@@ -5,6 +5,8 @@ from facts import op_int, op_local, op_place
 import loaderlib as L
 import C22
 
+THOROUGH_CFGS = ('min_none', 'min_rten', 'min_onnx')   # reduced-feature builds of the rten crate (thorough tier)
+
 EXPLANATION = (
     "Request validation is decided structurally for every run / partial_run request: (order) Graph::run reaches the "
     "executor only after validate_inputs and get_cached_plan returned Ok, partial_run only after validate_inputs and "
